@@ -29,9 +29,11 @@ import (
 	"github.com/yandex/pandora/examples/grpc/server"
 	"github.com/yandex/pandora/lib/monitoring"
 	"google.golang.org/grpc"
+	"google.golang.org/grpc/codes"
 	"google.golang.org/grpc/metadata"
 	"google.golang.org/grpc/peer"
 	"google.golang.org/grpc/reflection"
+	"google.golang.org/grpc/status"
 	"google.golang.org/protobuf/proto"
 	"google.golang.org/protobuf/reflect/protoreflect"
 	"gopkg.in/yaml.v2"
@@ -104,10 +106,25 @@ type Server struct {
 	hmu   sync.Mutex
 	calls []Call
 	seq   atomic.Int64
+
+	reflStreams atomic.Int64
 }
 
 var transportKeys = map[string]bool{":authority": true, "content-type": true, "user-agent": true, "grpc-accept-encoding": true,
 	"grpc-timeout": true, "te": true, "accept-encoding": true}
+
+// maskTokens prints every token of the example service (64 random characters each) occurring in a text as TOK<user>.
+func (s *Server) maskTokens(v string) string {
+	if len(v) < 16 {
+		return v
+	}
+	for tok, uid := range s.Tokens {
+		if tok != "" && strings.Contains(v, tok) {
+			v = strings.ReplaceAll(v, tok, "TOK"+strconv.FormatInt(uid, 10))
+		}
+	}
+	return v
+}
 
 func (s *Server) canonMsg(m proto.Message) string {
 	if m == nil {
@@ -125,11 +142,7 @@ func (s *Server) canonMsg(m proto.Message) string {
 		var txt string
 		switch fd.Kind() {
 		case protoreflect.StringKind:
-			str := v.String()
-			if uid, ok := s.Tokens[str]; ok {
-				str = "TOK" + strconv.FormatInt(uid, 10)
-			}
-			txt = "s." + Enc(str)
+			txt = "s." + Enc(s.maskTokens(v.String()))
 		case protoreflect.Int64Kind, protoreflect.Int32Kind, protoreflect.Sint64Kind, protoreflect.Sint32Kind:
 			txt = "n." + strconv.FormatInt(v.Int(), 10)
 		case protoreflect.Uint64Kind, protoreflect.Uint32Kind:
@@ -159,11 +172,7 @@ func (s *Server) canonMD(md metadata.MD) string {
 	for _, k := range keys {
 		vals := md[k]
 		for i, v := range vals {
-			if uid, ok := s.Tokens[strings.TrimPrefix(v, "Bearer ")]; ok && strings.HasPrefix(v, "Bearer ") {
-				vals[i] = "Bearer TOK" + strconv.FormatInt(uid, 10)
-			} else if uid, ok := s.Tokens[v]; ok {
-				vals[i] = "TOK" + strconv.FormatInt(uid, 10)
-			}
+			vals[i] = s.maskTokens(v)
 		}
 		enc := make([]string, len(vals))
 		for i, v := range vals {
@@ -212,13 +221,49 @@ func (s *Server) Calls() []Call {
 
 func (s *Server) Stop() { s.GS.Stop() }
 
+// ServerOpts selects what an in-process server offers.
+type ServerOpts struct {
+	// NoReflection: the server implements the example service but does NOT serve the reflection API (a target whose
+	// descriptors are published elsewhere: the gun's reflect_port option).
+	NoReflection bool
+	// ReflectMD: metadata the reflection API demands of its caller (the gun's reflect_metadata option); a reflection
+	// stream without every one of these pairs is refused with PermissionDenied.
+	ReflectMD map[string]string
+}
+
 // StartServer starts the example service with reflection on 127.0.0.1:0.
-func StartServer() (*Server, error) {
+func StartServer() (*Server, error) { return StartServerWith(ServerOpts{}) }
+
+func (s *Server) streamIntercept(need map[string]string) grpc.StreamServerInterceptor {
+	return func(srv any, ss grpc.ServerStream, info *grpc.StreamServerInfo, handler grpc.StreamHandler) error {
+		if strings.Contains(info.FullMethod, "ServerReflection") {
+			s.reflStreams.Add(1)
+			if len(need) > 0 {
+				md, _ := metadata.FromIncomingContext(ss.Context())
+				for k, v := range need {
+					got := md.Get(k)
+					if len(got) != 1 || got[0] != v {
+						return status.Error(codes.PermissionDenied, "reflection metadata missing")
+					}
+				}
+			}
+		}
+		return handler(srv, ss)
+	}
+}
+
+// ReflStreams: how many reflection streams were opened on this server.
+func (s *Server) ReflStreams() int64 { return s.reflStreams.Load() }
+
+// StartServerWith starts the example service on 127.0.0.1:0 behind the recording interceptor.
+func StartServerWith(o ServerOpts) (*Server, error) {
 	s := &Server{Tokens: map[string]int64{}}
-	s.GS = grpc.NewServer(grpc.UnaryInterceptor(s.intercept))
+	s.GS = grpc.NewServer(grpc.UnaryInterceptor(s.intercept), grpc.StreamInterceptor(s.streamIntercept(o.ReflectMD)))
 	s.Srv = server.NewServer(slog.New(slog.NewTextHandler(io.Discard, nil)), 1)
 	server.RegisterTargetServiceServer(s.GS, s.Srv)
-	reflection.Register(s.GS)
+	if !o.NoReflection {
+		reflection.Register(s.GS)
+	}
 	// learn the random tokens through the service's own Auth method (before the interceptor is live traffic-wise:
 	// direct method calls do not pass the interceptor)
 	for uid := int64(1); uid <= 10; uid++ {
